@@ -18,6 +18,10 @@ func TestC06(t *testing.T) {
 	mix[core.OpBuildNew] = 14
 	mix[core.OpBuildBatch] = 8
 	mix[core.OpSet] = 5
+	mix[core.OpRegister] = 4
+	mix[core.OpUnregister] = 1
+	mix[core.OpQuery] = 5
+	mix["useRegistered"] = 40
 	runSimProp(t, &simProp{
 		ID: "C06",
 		Cfg: core.SimConfig{
@@ -25,11 +29,15 @@ func TestC06(t *testing.T) {
 			Owned:           core.Own(core.CatPanicTarget, core.CatInvNode, core.CatInvTable),
 			Verify:          core.FullVerify,
 			CheckRelQueries: true,
+			ScanRegistered:  true,
 			// what the statement promises about OTHER entities is owned at the moment a target
 			// dies, and whenever entities are put under a target after some table was retired
 			OwnedIf: func(s *core.Sim, f *core.Finding) bool {
 				switch f.Cat {
 				case core.CatRelation, core.CatComponents, core.CatHandles, core.CatScan, core.CatInvIndex, core.CatObserve:
+				case core.CatCacheDiff, core.CatPanicCached, core.CatBatchDiff:
+					// registered filters and batch calls: owned only once a table was retired
+					return len(s.DeadTargets) > 0
 				default:
 					return false
 				}
